@@ -319,6 +319,11 @@ def _strategy_base():
             if self.position.is_open and STATE['observe'] >= 1:
                 decl = {'sl': None if self.stop_loss is None else np.array(self._stop_loss, dtype=float).tolist() if self._stop_loss is not None else None,
                         'tp': None if self.take_profit is None else np.array(self._take_profit, dtype=float).tolist() if self._take_profit is not None else None}
+            if self.spec.get('log_declare'):
+                from jesse.store import store
+                act = [(getattr(o, '_vf_oid', -1), o.submitted_via, o.type, o.side, o.qty, o.price, bool(o.reduce_only))
+                       for o in store.orders.get_orders(self.exchange, self.symbol) if o.is_active]
+                TRACE.append(('after-state', self.symbol, now(), self.index, self.position.qty, act, decl))
             self._log('after', decl)
 
         # -- decisions
@@ -347,7 +352,14 @@ def _strategy_base():
             return r
 
         def _px(self, ref, off):
+            if self.spec.get('rel'):
+                return ref * (1 + off)
             return ref + off * self.spec['tick']
+
+        def _declared(self, kind, rows, site):
+            if self.spec.get('log_declare'):
+                TRACE.append(('declare', self.symbol, kind, [[float(q), float(p)] for q, p in rows], now(), float(self.price), site,
+                              self.position.qty, self.position.entry_price))
 
         def _exits(self, which, ref, legs):
             """legs: [[qty, d]] d ticks on the profit side for tp / on the loss side for sl."""
@@ -364,13 +376,16 @@ def _strategy_base():
                 self.buy = legs if len(legs) > 1 else legs[0]
             else:
                 self.sell = legs if len(legs) > 1 else legs[0]
+            self._declared('entry', legs, 'go')
             ae = s.get('at_entry')
             if ae:
                 ref = legs[0][1]
                 if ae.get('sl'):
                     self.stop_loss = self._exits('sl', ref, ae['sl'])
+                    self._declared('sl', self.stop_loss, 'go')
                 if ae.get('tp'):
                     self.take_profit = self._exits('tp', ref, ae['tp'])
+                    self._declared('tp', self.take_profit, 'go')
             self._log('go', {'buy': legs})
 
         def go_long(self):
@@ -379,7 +394,7 @@ def _strategy_base():
         def go_short(self):
             self._declare_entry()
 
-        def _apply_exits(self, d, ref):
+        def _apply_exits(self, d, ref, site=''):
             if not d:
                 return
             for which in ('sl', 'tp'):
@@ -397,6 +412,7 @@ def _strategy_base():
                     self.stop_loss = legs
                 else:
                     self.take_profit = legs
+                self._declared(which, legs, site)
 
         def _log_liq(self):
             if self.spec.get('log_liq'):
@@ -406,19 +422,19 @@ def _strategy_base():
         def on_open_position(self, order):
             self._log('on_open_position', getattr(order, '_vf_oid', -1))
             self._log_liq()
-            self._apply_exits(self.spec.get('on_open'), self.position.entry_price)
+            self._apply_exits(self.spec.get('on_open'), self.position.entry_price, 'on_open_position')
             if self.spec.get('raise') == 'on_open_position':
                 raise RuntimeError('scripted failure')
 
         def on_increased_position(self, order):
             self._log('on_increased_position', getattr(order, '_vf_oid', -1))
             self._log_liq()
-            self._apply_exits(self.spec.get('on_increased'), self.position.entry_price)
+            self._apply_exits(self.spec.get('on_increased'), self.position.entry_price, 'on_increased_position')
 
         def on_reduced_position(self, order):
             self._log('on_reduced_position', getattr(order, '_vf_oid', -1))
             self._log_liq()
-            self._apply_exits(self.spec.get('on_reduced'), self.position.entry_price)
+            self._apply_exits(self.spec.get('on_reduced'), self.position.entry_price, 'on_reduced_position')
 
         def on_close_position(self, order):
             self._log('on_close_position', getattr(order, '_vf_oid', -1))
@@ -433,6 +449,9 @@ def _strategy_base():
                 self._log('update_position', u)
                 if u.get('liquidate'):
                     self.liquidate()
+                    if self.spec.get('log_declare'):
+                        which = 'tp' if self.position.pnl > 0 else 'sl'
+                        self._declared(which, [(abs(self.position.qty), self.price)], 'liquidate')
                 elif u.get('flip'):
                     q = abs(self.position.qty) * u['flip']
                     if self.is_long:
@@ -440,9 +459,12 @@ def _strategy_base():
                     else:
                         self.broker.buy_at_market(q)
                 else:
-                    self._apply_exits(u, self.position.entry_price)
+                    self._apply_exits(u, self.position.entry_price, 'update_position')
             if isinstance(self.spec.get('raise'), dict) and self.spec['raise'].get('at') == self.index:
                 raise RuntimeError('scripted failure')
+
+        def before_terminate(self):
+            self._log('before_terminate')
 
         def terminate(self):
             self._log('terminate')
